@@ -15,7 +15,17 @@ struct vin_t nondet_vin(void);
 struct vin_t vin;
 VMISUSE_DEFINE
 static unsigned n_core; static int core_args_ok = 1;
-int crypto_core_salsa20(unsigned char *out, const unsigned char *in, const unsigned char *k, const unsigned char *c)
+#ifndef SVAR
+# define SVAR 0      /* 0 = Salsa20 (salsa20_ref.c), 1 = Salsa20/12 (stream_salsa2012_ref.c), 2 = Salsa20/8 (stream_salsa208_ref.c) */
+#endif
+#if SVAR == 0
+# define CORE_FN crypto_core_salsa20
+#elif SVAR == 1
+# define CORE_FN crypto_core_salsa2012
+#else
+# define CORE_FN crypto_core_salsa208
+#endif
+int CORE_FN(unsigned char *out, const unsigned char *in, const unsigned char *k, const unsigned char *c)
 {
     int i; uint64_t ctr = 0;
     for (i = 7; i >= 0; i--) ctr = (ctr << 8) | in[8 + i];
@@ -24,7 +34,19 @@ int crypto_core_salsa20(unsigned char *out, const unsigned char *in, const unsig
     n_core++;
     return 0;
 }
-#include "crypto_stream/salsa20/ref/salsa20_ref.c"
+#if SVAR == 0
+# include "crypto_stream/salsa20/ref/salsa20_ref.c"
+# define STREAM(c, l, n, k) stream_ref(c, l, n, k)
+# define STREAM_XOR(c, m, l, n, ic, k) stream_ref_xor_ic(c, m, l, n, ic, k)
+#elif SVAR == 1
+# include "crypto_stream/salsa2012/ref/stream_salsa2012_ref.c"
+# define STREAM(c, l, n, k) crypto_stream_salsa2012(c, l, n, k)
+# define STREAM_XOR(c, m, l, n, ic, k) crypto_stream_salsa2012_xor(c, m, l, n, k)
+#else
+# include "crypto_stream/salsa208/ref/stream_salsa208_ref.c"
+# define STREAM(c, l, n, k) crypto_stream_salsa208(c, l, n, k)
+# define STREAM_XOR(c, m, l, n, ic, k) crypto_stream_salsa208_xor(c, m, l, n, k)
+#endif
 
 void hb_stream(void)
 {
@@ -37,8 +59,11 @@ void hb_stream(void)
     for (i = 0; i < VLEN; i++) min[i] = vin.m[i];
     for (i = 0; i < VLEN + 8; i++) out[i] = 0xA5;
     n_core = 0; core_args_ok = 1;
-    if (vin.use_xor) stream_ref_xor_ic(out, min, vin.mlen, vin.n, vin.ic, vin.k);
-    else { VASSUME(vin.ic == 0); stream_ref(out, vin.mlen, vin.n, vin.k); }
+#if SVAR != 0
+    VASSUME(vin.ic == 0);                                    /* these two ciphers have no initial-counter form */
+#endif
+    if (vin.use_xor) STREAM_XOR(out, min, vin.mlen, vin.n, vin.ic, vin.k);
+    else { VASSUME(vin.ic == 0); STREAM(out, vin.mlen, vin.n, vin.k); }
     VASSERT("block i is computed from nonce || le64(ic + i) under the key, default constant", core_args_ok && n_core == (vin.mlen + 63) / 64);
     for (i = 0; i < vin.mlen; i++) if (out[i] != (unsigned char) ((vin.use_xor ? vin.m[i] : 0) ^ vin.blocks[i / 64][i % 64])) ok = 0;
     VASSERT("output = (message XOR) keystream, block after block", ok);
